@@ -55,6 +55,10 @@ func newWorld() *world {
 	lists := [nChans][]peerT{{p}, {p, q}, {q}}
 	for i := range wd.chans {
 		w := mach.NewWorldNonce(2, 0, int64(100+i))
+		if i == 1 {
+			// this channel's ID contains ':' (0x3a), the store's key separator
+			w = mach.NewWorldIDWith(2, 0, int64(100+i), ':')
+		}
 		wd.chans[i] = &chanT{w: w, peers: lists[i]}
 	}
 	pid := wd.chans[0].w.Params.ID()
@@ -70,14 +74,24 @@ func (wd *world) create(i int) {
 	rt.Assume(err == nil)
 	c.m = m
 	c.pm = persistence.FromStateMachine(m, wd.pr)
-	rt.Assert("c11.create-ok", wd.pr.ChannelCreated(wd.ctx, m, c.peers, c.parent) == nil)
+	// Two orders exist in the client: ledger and sub-channels are registered
+	// with the store first and then initialised; the hub's view of a virtual
+	// channel is initialised, signed, enabled and funded first and registered
+	// afterwards (persistVirtualChannel).
+	createLast := rt.NondetBool()
 	must := func(err error) { rt.Assert("c11.op-ok", err == nil) }
+	if !createLast {
+		rt.Assert("c11.create-ok", wd.pr.ChannelCreated(wd.ctx, m, c.peers, c.parent) == nil)
+	}
 	must(c.pm.Init(wd.ctx, channel.Allocation{Assets: gen.Assets(1), Backends: gen.Backends(1), Balances: channel.Balances{gen.Bals(2)}}, channel.NoData()))
 	_, err = c.pm.Sig(wd.ctx)
 	must(err)
 	must(c.pm.AddSig(wd.ctx, 1, c.w.Sign(1, m.StagingState())))
 	must(c.pm.EnableInit(wd.ctx))
 	must(c.pm.SetFunded(wd.ctx))
+	if createLast {
+		rt.Assert("c11.create-ok", wd.pr.ChannelCreated(wd.ctx, m, c.peers, c.parent) == nil)
+	}
 	c.live = true
 }
 
